@@ -25,6 +25,8 @@ type paramHandler struct {
 	served    int
 	probeSeen bool
 	probeGot  []byte
+	pause     bool // the handler takes its time after reading: it waits for proceed
+	proceed   bool
 }
 
 func (h *paramHandler) HandleRPC(stream drpc.Stream, rpc string) error {
@@ -44,6 +46,9 @@ func (h *paramHandler) HandleRPC(stream drpc.Stream, rpc string) error {
 		if err := stream.MsgRecv(&in, hx.ByteEnc{}); err != nil {
 			break
 		}
+	}
+	if h.pause {
+		vrt.WaitFor(&h.proceed)
 	}
 	if h.respond {
 		out := []byte{0x11}
@@ -68,7 +73,7 @@ func VerifH_ServerNextRPC() {
 	vrt.Assume(j >= 0 && j <= maxj && k >= 0 && k <= maxj)
 	ending := vrt.Int("ending")
 	vrt.Assume(ending >= 0 && ending < numEndings)
-	h := &paramHandler{k: k, respond: vrt.Bool("respond"), fail: vrt.Bool("fail")}
+	h := &paramHandler{k: k, respond: vrt.Bool("respond"), fail: vrt.Bool("fail"), pause: vrt.Bool("pause")}
 	vrt.Tag("cancel-for-never-invoked-stream", ending == endCancelOnly || ending == endCancelAfterMeta)
 	vrt.Tag("handler-leaves-messages-unread", k < j && ending != endCancelOnly && ending != endCancelAfterMeta)
 
@@ -109,6 +114,11 @@ func VerifH_ServerNextRPC() {
 		serveDone = true
 	}()
 	vrt.Quiesce()
+	if h.pause {
+		// the reader has run as far ahead of the slow handler as it can; let the handler finish
+		h.proceed = true
+		vrt.Quiesce()
+	}
 	vrt.Assert(!serveDone && !tr.Closed, "connection still open (the transport keeps moving bytes, nobody closed it)")
 	vrt.Assert(h.probeSeen, "the probe RPC reaches its handler")
 	if h.probeSeen {
